@@ -254,13 +254,14 @@ def check_ws(spec, isd, acc, t):
           cur += s
       ls.append(cur)
       return ls
-    want = [" ".join(x.split()) for x in lines(src)]
+    # XML white space only: U+3000, U+00A0 ... are ordinary characters (str.split() would treat them as separators)
+    want = [" ".join(w for w in re.split(r"[ \t\r\n]+", x) if w) for x in lines(src)]
     got = lines(out)
     if want != got:
       v("C13.ws.default.lines", "lines", got, want)
 
 
-WS_ALPHABET = ["a", " ", "  ", "\n", "\t", " a", "a ", " a "]
+WS_ALPHABET = ["a", " ", "  ", "\n", "\t", " a", "a ", " a ", "a\u3000", "\u00a0"]     # the last two: spaces that are not XML white space
 WS_ALPHABET_SMALL = ["a", " ", "\n", " a", "a ", " a  b "]
 
 
